@@ -1,5 +1,1038 @@
-//! C15/C21/C22 (static lowering model) — plan explorer. (under construction)
+//! C15 (before/after/alternate lowering), C21 (block alternate), C22 (special modes are never
+//! silently lost) and the plan family of C05 — all static: the encoded function is compared with
+//! a textual lowering model that shares no code with wirm.
 use crate::engine::*;
+use crate::interp::{load, IFunc};
+use crate::prog::*;
+use crate::wasmutil::*;
+use rayon::prelude::*;
+use serde::{Deserialize, Serialize};
+use serde_json::json;
+use std::collections::HashMap;
+use wasmparser::Operator;
+use wirm::ir::id::{FunctionID, ModuleID};
+use wirm::ir::types::{InstrumentationMode, Location};
+use wirm::iterator::component_iterator::ComponentIterator;
+use wirm::iterator::iterator_trait::{IteratingInstrumenter, Iterator as WIterator};
+use wirm::iterator::module_iterator::ModuleIterator;
+use wirm::opcode::{Inject, InjectAt, Instrumenter};
+use wirm::{Component, Module};
 
-/// C05's second family: every instrumentation plan encoded three times.
-pub fn reencode_family(_run: &mut Run, _tier: Tier) {}
+#[derive(Clone, Copy, Debug, PartialEq, Eq, Hash, PartialOrd, Ord, Serialize, Deserialize)]
+pub enum SMode {
+    Before,
+    After,
+    Alternate,
+    EmptyAlternate,
+    BlockAlt,
+    EmptyBlockAlt,
+    SemanticAfter,
+    BlockEntry,
+    BlockExit,
+    FuncEntry,
+    FuncExit,
+}
+impl SMode {
+    pub fn name(self) -> &'static str {
+        match self {
+            SMode::Before => "before",
+            SMode::After => "after",
+            SMode::Alternate => "alternate",
+            SMode::EmptyAlternate => "empty-alternate",
+            SMode::BlockAlt => "block-alt",
+            SMode::EmptyBlockAlt => "empty-block-alt",
+            SMode::SemanticAfter => "semantic-after",
+            SMode::BlockEntry => "block-entry",
+            SMode::BlockExit => "block-exit",
+            SMode::FuncEntry => "func-entry",
+            SMode::FuncExit => "func-exit",
+        }
+    }
+    fn imode(self) -> Option<InstrumentationMode> {
+        Some(match self {
+            SMode::Before => InstrumentationMode::Before,
+            SMode::After => InstrumentationMode::After,
+            SMode::Alternate => InstrumentationMode::Alternate,
+            SMode::BlockAlt => InstrumentationMode::BlockAlt,
+            SMode::SemanticAfter => InstrumentationMode::SemanticAfter,
+            SMode::BlockEntry => InstrumentationMode::BlockEntry,
+            SMode::BlockExit => InstrumentationMode::BlockExit,
+            _ => return None,
+        })
+    }
+}
+
+/// API path through which an injection is made
+#[derive(Clone, Copy, Debug, PartialEq, Eq, Hash, PartialOrd, Ord, Serialize, Deserialize)]
+pub enum Api {
+    /// ModuleIterator walked to the location, `mode()` then `inject`
+    IterMode,
+    /// ModuleIterator::inject_at(idx, mode, op)
+    IterInjectAt,
+    /// ModuleIterator `*_at(loc)` + `add_instr_at(loc, op)`
+    IterAddInstrAt,
+    /// FunctionModifier `*_at(loc)` then `inject`
+    ModAt,
+    /// FunctionModifier::inject_at(idx, mode, op)
+    ModInjectAt,
+    /// FunctionModifier `*_at(loc)` + `add_instr_at(loc, op)`
+    ModAddInstrAt,
+    /// ComponentIterator walked to the location, `mode()` then `inject`
+    CompMode,
+    CompInjectAt,
+    CompAddInstrAt,
+}
+impl Api {
+    pub fn name(self) -> &'static str {
+        match self {
+            Api::IterMode => "module-iterator mode()+inject",
+            Api::IterInjectAt => "module-iterator inject_at",
+            Api::IterAddInstrAt => "module-iterator *_at+add_instr_at",
+            Api::ModAt => "function-modifier *_at+inject",
+            Api::ModInjectAt => "function-modifier inject_at",
+            Api::ModAddInstrAt => "function-modifier *_at+add_instr_at",
+            Api::CompMode => "component-iterator mode()+inject",
+            Api::CompInjectAt => "component-iterator inject_at",
+            Api::CompAddInstrAt => "component-iterator *_at+add_instr_at",
+        }
+    }
+    fn is_comp(self) -> bool {
+        matches!(self, Api::CompMode | Api::CompInjectAt | Api::CompAddInstrAt)
+    }
+}
+pub const ALL_APIS: [Api; 9] = [Api::IterMode, Api::IterInjectAt, Api::IterAddInstrAt, Api::ModAt, Api::ModInjectAt, Api::ModAddInstrAt, Api::CompMode, Api::CompInjectAt, Api::CompAddInstrAt];
+
+#[derive(Clone, Debug, PartialEq, Eq, Hash, Serialize, Deserialize)]
+pub struct Inj {
+    pub at: usize,
+    pub mode: SMode,
+    /// unique constant of the injected `i32.const c; drop`
+    pub c: i32,
+    /// for a replaced `if`: the replacement starts with `drop` (consumes the condition)
+    pub drop_first: bool,
+}
+
+#[derive(Clone, Debug, Serialize, Deserialize)]
+pub struct Case {
+    pub program: Program,
+    pub plan: Vec<Inj>,
+    pub api: Api,
+}
+
+fn code_of(i: &Inj) -> Vec<Operator<'static>> {
+    let mut v = vec![];
+    if i.drop_first {
+        v.push(Operator::Drop);
+    }
+    v.push(Operator::I32Const { value: i.c });
+    v.push(Operator::Drop);
+    v
+}
+
+/// wrap a core module into a component (for the component-iterator paths)
+fn wrap_component(module: &[u8]) -> Vec<u8> {
+    let mut c = wasm_encoder::Component::new();
+    c.section(&wasm_encoder::RawSection { id: 1, data: module });
+    c.finish()
+}
+
+/// extract the first core module of a component binary
+fn first_module(comp: &[u8]) -> Option<Vec<u8>> {
+    for p in wasmparser::Parser::new(0).parse_all(comp) {
+        if let Ok(wasmparser::Payload::ModuleSection { unchecked_range, .. }) = p {
+            return comp.get(unchecked_range).map(|b| b.to_vec());
+        }
+    }
+    None
+}
+
+/// Apply the plan to MAIN (function 2) through the given API path and encode.
+/// Ok(bytes) | Err(panic): the panic tells where (apply or encode) through its message prefix.
+pub fn apply_and_encode(bytes: &[u8], plan: &[Inj], api: Api, encodes: usize) -> Result<Vec<Vec<u8>>, (bool, PanicInfo)> {
+    let f = F_MAIN;
+    let comp_bytes = if api.is_comp() { wrap_component(bytes) } else { vec![] };
+    let mut applied = false;
+    let r = catch(|| {
+        let mut module_holder: Option<Module> = None;
+        let mut comp_holder: Option<Component> = None;
+        if api.is_comp() {
+            comp_holder = Some(Component::parse(&comp_bytes, false).expect("harness: wrapped component parses"));
+        } else {
+            module_holder = Some(Module::parse(bytes, false).expect("harness: generated program parses"));
+        }
+        for inj in plan {
+            let code = code_of(inj);
+            let func_level = matches!(inj.mode, SMode::FuncEntry | SMode::FuncExit);
+            let want = if func_level { 0 } else { inj.at };
+            macro_rules! with_iter {
+                ($it:ident, $loc:expr, $body:block) => {{
+                    loop {
+                        let here = match $it.curr_loc().0 {
+                            Location::Module { func_idx, instr_idx } => (*func_idx, instr_idx),
+                            Location::Component { func_idx, instr_idx, .. } => (*func_idx, instr_idx),
+                        };
+                        if here == (f, want) {
+                            break;
+                        }
+                        if $it.next().is_none() {
+                            panic!("harness: iterator never reached function {} instruction {}", f, want);
+                        }
+                    }
+                    $body
+                }};
+            }
+            macro_rules! set_mode_here {
+                ($it:ident) => {
+                    match inj.mode {
+                        SMode::Before => {
+                            $it.before();
+                        }
+                        SMode::After => {
+                            $it.after();
+                        }
+                        SMode::Alternate => {
+                            $it.alternate();
+                        }
+                        SMode::EmptyAlternate => {
+                            $it.empty_alternate();
+                        }
+                        SMode::BlockAlt => {
+                            $it.block_alt();
+                        }
+                        SMode::EmptyBlockAlt => {
+                            $it.empty_block_alt();
+                        }
+                        SMode::SemanticAfter => {
+                            $it.semantic_after();
+                        }
+                        SMode::BlockEntry => {
+                            $it.block_entry();
+                        }
+                        SMode::BlockExit => {
+                            $it.block_exit();
+                        }
+                        SMode::FuncEntry => {
+                            $it.func_entry();
+                        }
+                        SMode::FuncExit => {
+                            $it.func_exit();
+                        }
+                    }
+                };
+            }
+            macro_rules! set_mode_at {
+                ($x:ident, $loc:expr) => {
+                    match inj.mode {
+                        SMode::Before => {
+                            $x.before_at($loc);
+                        }
+                        SMode::After => {
+                            $x.after_at($loc);
+                        }
+                        SMode::Alternate => {
+                            $x.alternate_at($loc);
+                        }
+                        SMode::EmptyAlternate => {
+                            $x.empty_alternate_at($loc);
+                        }
+                        SMode::BlockAlt => {
+                            $x.block_alt_at($loc);
+                        }
+                        SMode::EmptyBlockAlt => {
+                            $x.empty_block_alt_at($loc);
+                        }
+                        SMode::SemanticAfter => {
+                            $x.semantic_after_at($loc);
+                        }
+                        SMode::BlockEntry => {
+                            $x.block_entry_at($loc);
+                        }
+                        SMode::BlockExit => {
+                            $x.block_exit_at($loc);
+                        }
+                        SMode::FuncEntry => {
+                            $x.func_entry();
+                        }
+                        SMode::FuncExit => {
+                            $x.func_exit();
+                        }
+                    }
+                };
+            }
+            let empty = matches!(inj.mode, SMode::EmptyAlternate | SMode::EmptyBlockAlt);
+            match api {
+                Api::IterMode | Api::IterInjectAt | Api::IterAddInstrAt => {
+                    let module = module_holder.as_mut().unwrap();
+                    let mut it = ModuleIterator::new(module, &vec![]);
+                    let loc = Location::Module { func_idx: FunctionID(f), instr_idx: inj.at };
+                    match api {
+                        Api::IterMode => with_iter!(it, loc, {
+                            set_mode_here!(it);
+                            if !empty {
+                                for op in code {
+                                    it.inject(op);
+                                }
+                            }
+                        }),
+                        Api::IterInjectAt => with_iter!(it, loc, {
+                            // the iterator only has to stand in the function
+                            match inj.mode.imode() {
+                                Some(m) if !func_level => {
+                                    for op in code {
+                                        it.inject_at(inj.at, m, op);
+                                    }
+                                }
+                                _ => {
+                                    set_mode_here!(it);
+                                    if !empty {
+                                        for op in code {
+                                            it.inject(op);
+                                        }
+                                    }
+                                }
+                            }
+                        }),
+                        _ => {
+                            // position-independent: *_at(loc) + add_instr_at(loc, op)
+                            if func_level {
+                                with_iter!(it, loc, {
+                                    set_mode_here!(it);
+                                    for op in code {
+                                        it.inject(op);
+                                    }
+                                })
+                            } else {
+                                set_mode_at!(it, loc);
+                                if !empty {
+                                    for op in code {
+                                        it.add_instr_at(loc, op);
+                                    }
+                                }
+                            }
+                        }
+                    }
+                }
+                Api::ModAt | Api::ModInjectAt | Api::ModAddInstrAt => {
+                    let module = module_holder.as_mut().unwrap();
+                    let mut fm = module.functions.get_fn_modifier(FunctionID(f)).expect("harness: local function");
+                    let loc = Location::Module { func_idx: FunctionID(f), instr_idx: inj.at };
+                    match api {
+                        Api::ModAt => {
+                            set_mode_at!(fm, loc);
+                            if !empty {
+                                for op in code {
+                                    fm.inject(op);
+                                }
+                            }
+                        }
+                        Api::ModInjectAt => match inj.mode.imode() {
+                            Some(m) if !func_level => {
+                                for op in code {
+                                    fm.inject_at(inj.at, m, op);
+                                }
+                            }
+                            _ => {
+                                set_mode_at!(fm, loc);
+                                if !empty {
+                                    for op in code {
+                                        fm.inject(op);
+                                    }
+                                }
+                            }
+                        },
+                        _ => {
+                            set_mode_at!(fm, loc);
+                            if !empty {
+                                if func_level {
+                                    for op in code {
+                                        fm.inject(op);
+                                    }
+                                } else {
+                                    for op in code {
+                                        fm.add_instr_at(loc, op);
+                                    }
+                                }
+                            }
+                        }
+                    }
+                    fm.finish_instr();
+                }
+                Api::CompMode | Api::CompInjectAt | Api::CompAddInstrAt => {
+                    let comp = comp_holder.as_mut().unwrap();
+                    let mut it = ComponentIterator::new(comp, HashMap::new());
+                    let loc = Location::Component { mod_idx: ModuleID(0), func_idx: FunctionID(f), instr_idx: inj.at };
+                    match api {
+                        Api::CompMode => with_iter!(it, loc, {
+                            set_mode_here!(it);
+                            if !empty {
+                                for op in code {
+                                    it.inject(op);
+                                }
+                            }
+                        }),
+                        Api::CompInjectAt => with_iter!(it, loc, {
+                            match inj.mode.imode() {
+                                Some(m) if !func_level => {
+                                    for op in code {
+                                        it.inject_at(inj.at, m, op);
+                                    }
+                                }
+                                _ => {
+                                    set_mode_here!(it);
+                                    if !empty {
+                                        for op in code {
+                                            it.inject(op);
+                                        }
+                                    }
+                                }
+                            }
+                        }),
+                        _ => {
+                            if func_level {
+                                with_iter!(it, loc, {
+                                    set_mode_here!(it);
+                                    for op in code {
+                                        it.inject(op);
+                                    }
+                                })
+                            } else {
+                                set_mode_at!(it, loc);
+                                if !empty {
+                                    for op in code {
+                                        it.add_instr_at(loc, op);
+                                    }
+                                }
+                            }
+                        }
+                    }
+                }
+            }
+        }
+        applied = true;
+        let mut outs = vec![];
+        for _ in 0..encodes {
+            if let Some(c) = comp_holder.as_mut() {
+                let cb = c.encode();
+                outs.push(first_module(&cb).expect("harness: encoded component contains its module"));
+            } else {
+                outs.push(module_holder.as_mut().unwrap().encode());
+            }
+        }
+        outs
+    });
+    r.map_err(|p| (applied, p))
+}
+
+fn ops_of(bytes: &[u8], func: usize) -> Result<Vec<String>, String> {
+    // an alternate on a structural instruction yields an unbalanced body that wasmparser's
+    // operator reader refuses as a whole: decode operator by operator instead
+    Ok(lenient_ops(&op_bytes_of(bytes, func)?))
+}
+
+/// The lowering model (E4): expected operator list of the instrumented function.
+fn expected_ops(orig: &IFunc, plan: &[Inj]) -> Vec<String> {
+    const NONE: usize = usize::MAX;
+    let n = orig.ops.len();
+    let mut before: Vec<Vec<String>> = vec![vec![]; n];
+    let mut after: Vec<Vec<String>> = vec![vec![]; n];
+    let mut alt: Vec<Option<Vec<String>>> = vec![None; n];
+    let mut deleted = vec![false; n];
+    let mut replacement: Vec<Vec<String>> = vec![vec![]; n];
+    let code = |i: &Inj| -> Vec<String> { code_of(i).iter().map(|o| format!("{:?}", o)).collect() };
+    // block alternates first: outermost wins, instrumentation inside a removed region vanishes
+    let mut balts: Vec<&Inj> = plan.iter().filter(|i| matches!(i.mode, SMode::BlockAlt | SMode::EmptyBlockAlt)).collect();
+    balts.sort_by_key(|i| i.at);
+    let mut region_opened: Vec<bool> = vec![false; n];
+    for i in balts {
+        if deleted[i.at] {
+            continue;
+        }
+        let (from, to_excl) = match &orig.ops[i.at] {
+            Operator::Else => (i.at, orig.end_of[i.at]),
+            _ => (i.at, orig.end_of[i.at] + 1),
+        };
+        if orig.end_of[i.at] == NONE {
+            continue;
+        }
+        if !region_opened[i.at] {
+            for d in deleted.iter_mut().take(to_excl).skip(from) {
+                *d = true;
+            }
+            region_opened[i.at] = true;
+        }
+        if i.mode == SMode::BlockAlt {
+            replacement[i.at].extend(code(i));
+        }
+    }
+    for i in plan {
+        match i.mode {
+            SMode::Before => before[i.at].extend(code(i)),
+            SMode::After => after[i.at].extend(code(i)),
+            SMode::Alternate => alt[i.at].get_or_insert_with(Vec::new).extend(code(i)),
+            SMode::EmptyAlternate => alt[i.at] = Some(vec![]),
+            _ => {}
+        }
+    }
+    let mut out = vec![];
+    for i in 0..n {
+        if deleted[i] {
+            if region_opened[i] {
+                out.extend(replacement[i].iter().cloned());
+            }
+            continue;
+        }
+        let last = i == n - 1;
+        out.extend(before[i].iter().cloned());
+        match (&alt[i], last) {
+            (Some(a), false) => out.extend(a.iter().cloned()),
+            _ => out.push(format!("{:?}", orig.ops[i])),
+        }
+        if !last {
+            out.extend(after[i].iter().cloned());
+        }
+    }
+    out
+}
+
+/// the raw bytes of the operators of local function `func` (after the local declarations)
+fn op_bytes_of(bytes: &[u8], func: usize) -> Result<Vec<u8>, String> {
+    let mut idx = 0usize;
+    for p in wasmparser::Parser::new(0).parse_all(bytes) {
+        if let Ok(wasmparser::Payload::CodeSectionEntry(body)) = p {
+            if idx == func {
+                let r = body.get_operators_reader().map_err(|e| e.to_string())?;
+                return Ok(bytes[r.original_position()..body.range().end].to_vec());
+            }
+            idx += 1;
+        }
+    }
+    Err("function missing".into())
+}
+
+/// encode an operator list with wasm-encoder (independent of wirm's encoder path for whole bodies)
+fn encode_ops(ops: &[Operator<'static>]) -> Result<Vec<u8>, String> {
+    use wasm_encoder::reencode::{Reencode, RoundtripReencoder};
+    use wasm_encoder::Encode;
+    let mut out = vec![];
+    for op in ops {
+        RoundtripReencoder.instruction(op.clone()).map_err(|e| e.to_string())?.encode(&mut out);
+    }
+    Ok(out)
+}
+
+/// decode a string of operator bytes one operator at a time, ignoring block structure
+fn lenient_ops(bytes: &[u8]) -> Vec<String> {
+    let mut out = vec![];
+    let mut pos = 0usize;
+    while pos < bytes.len() {
+        // a fresh reader per operator, primed with enough openers that `else`/`end` are accepted
+        let mut buf = vec![0x02, 0x40, 0x04, 0x40];
+        buf.extend_from_slice(&bytes[pos..]);
+        let mut r = wasmparser::OperatorsReader::new(wasmparser::BinaryReader::new(&buf, 0));
+        let _ = r.read();
+        // after `block; if` both `else` and `end` are structurally fine
+        let _ = r.read();
+        let before = r.original_position();
+        match r.read() {
+            Ok(op) => {
+                out.push(format!("{:?}", op));
+                let used = r.original_position() - before;
+                if used == 0 {
+                    break;
+                }
+                pos += used;
+            }
+            Err(e) => {
+                out.push(format!("<undecodable {:02x?}: {}>", &bytes[pos..], e));
+                break;
+            }
+        }
+    }
+    out
+}
+
+fn role_at(roles: &[Role], i: usize) -> &'static str {
+    roles.get(i).map(|r| r.name()).unwrap_or("?")
+}
+
+fn first_diff(a: &[String], b: &[String]) -> String {
+    let n = a.len().min(b.len());
+    let mut i = 0;
+    while i < n && a[i] == b[i] {
+        i += 1;
+    }
+    format!("first difference at output index {}: expected {:?}, got {:?} (expected {} ops, got {})", i, a.get(i), b.get(i), a.len(), b.len())
+}
+
+/// judge one (program, plan, api) statically
+pub fn judge(case: &Case, validate_output: bool) -> Result<(Vec<Mismatch>, u64), String> {
+    let em = emit(&case.program);
+    let orig = load(&em.bytes).map_err(|e| format!("{:?}", e))?;
+    let mut out = vec![];
+    let desc = |i: &Inj| format!("{}@{}", i.mode.name(), role_at(&em.roles[0], i.at));
+    let mut descs: Vec<String> = case.plan.iter().map(desc).collect();
+    descs.sort();
+    let enc = match apply_and_encode(&em.bytes, &case.plan, case.api, 1) {
+        Ok(v) => v.into_iter().next().unwrap(),
+        Err((applied, p)) => {
+            if p.msg.starts_with("harness:") {
+                return Err(p.msg);
+            }
+            out.push(Mismatch::new(format!("panic {} {} [{}] via {}", if applied { "encode" } else { "inject" }, p.site(), descs.join(", "), case.api.name()), format!("{} at {}:{}", p.msg, p.file, p.line)));
+            return Ok((out, 0));
+        }
+    };
+    let got = ops_of(&enc, 0)?;
+    let want = expected_ops(&orig.funcs[0], &case.plan);
+    if got != want {
+        out.push(Mismatch::new(format!("lowering [{}] via {}", descs.join(", "), case.api.name()), first_diff(&want, &got)));
+    }
+    // the other function is untouched
+    let callee_before = ops_of(&em.bytes, 1)?;
+    let callee_after = ops_of(&enc, 1)?;
+    if callee_before != callee_after {
+        out.push(Mismatch::new(format!("other-function-changed via {}", case.api.name()), first_diff(&callee_before, &callee_after)));
+    }
+    // removing an `if` without replacement leaves its condition operand behind: validity of that is
+    // the caller's business, not the library's
+    let removes_if_without_replacement = case.plan.iter().any(|i| i.mode == SMode::EmptyBlockAlt && matches!(em.roles[0].get(i.at), Some(Role::If)));
+    if validate_output && !removes_if_without_replacement {
+        if let Err(e) = validate(&enc, features_core()) {
+            let msg = match e.find(" (at offset") {
+                Some(i) => e[..i].to_string(),
+                None => e.clone(),
+            };
+            let masked: String = msg.chars().map(|c| if c.is_ascii_digit() { '#' } else { c }).take(50).collect();
+            out.push(Mismatch::new(format!("invalid-output {} [{}]", masked, descs.join(", ")), e));
+        }
+    }
+    Ok((out, hash_of(&enc)))
+}
+
+fn grammar_all(n: usize, d: usize) -> Grammar {
+    use Leaf::*;
+    Grammar { max_nodes: n, max_depth: d, leaves: vec![Mark, Nop, Br, BrIf, BrTable, Ret, Unr, Call, GSet], blocks: true, loops: true, ifs: true, else_arms: true, conds: vec![Cond::A], results: 0 }
+}
+
+fn program_list(gr: &Grammar) -> Vec<Program> {
+    enumerate(gr).into_iter().map(|b| Program { results: gr.results, main: b, callee: vec![Stmt::Mark] }).collect()
+}
+
+fn run_cases_static(run: &mut Run, family: &str, cases: Vec<Case>, validate_output: bool) {
+    let results: Vec<Result<(Vec<Mismatch>, u64), String>> = cases
+        .par_iter()
+        .map(|c| match catch(|| judge(c, validate_output)) {
+            Ok(r) => r,
+            Err(p) => Err(format!("harness panic: {} at {}:{}", p.msg, p.file, p.line)),
+        })
+        .collect();
+    for (c, r) in cases.iter().zip(results) {
+        match r {
+            Err(e) => run.machinery_error(format!("{}: {}", family, e)),
+            Ok((ms, h)) => {
+                run.add_observed(h);
+                let em = emit(&c.program);
+                let mut class: Vec<String> = c.plan.iter().map(|i| format!("{}@{}", i.mode.name(), role_at(&em.roles[0], i.at))).collect();
+                class.sort();
+                run.add_class(family, &format!("{}|{}", class.join("+"), c.api.name()));
+                for m in ms {
+                    run.add_mismatch(family, json!(c), m.sig, m.detail, 1);
+                }
+            }
+        }
+    }
+    run.add_evaluations(family, cases.len() as u64);
+    if let Some(c) = cases.get(cases.len() / 2) {
+        run.add_sample(json!({"family": family, "case": c}));
+    }
+}
+
+// ---------------------------------------------------------------------------------------------
+// C15
+// ---------------------------------------------------------------------------------------------
+fn c15_plans(n_ops: usize, p: usize) -> Vec<Vec<Inj>> {
+    let modes = [SMode::Before, SMode::After, SMode::Alternate, SMode::EmptyAlternate];
+    let mut sites = vec![];
+    for at in 0..n_ops {
+        for m in modes {
+            sites.push((at, m));
+        }
+    }
+    let mk = |k: usize, s: &(usize, SMode)| Inj { at: s.0, mode: s.1, c: 0x7100 + k as i32, drop_first: false };
+    let compatible = |a: &(usize, SMode), b: &(usize, SMode)| -> bool {
+        // alternate and empty-alternate on one site: the text does not say which wins
+        !(a.0 == b.0 && ((a.1 == SMode::Alternate && b.1 == SMode::EmptyAlternate) || (a.1 == SMode::EmptyAlternate && b.1 == SMode::Alternate)))
+    };
+    let mut out = vec![];
+    for (i, a) in sites.iter().enumerate() {
+        out.push(vec![mk(0, a)]);
+        if p >= 2 {
+            for (j, b) in sites.iter().enumerate().skip(i) {
+                if !compatible(a, b) {
+                    continue;
+                }
+                out.push(vec![mk(0, a), mk(1, b)]);
+                if p >= 3 {
+                    for c in sites.iter().skip(j) {
+                        if compatible(a, c) && compatible(b, c) {
+                            out.push(vec![mk(0, a), mk(1, b), mk(2, c)]);
+                        }
+                    }
+                }
+            }
+        }
+    }
+    out
+}
+
+pub fn check_c15(tier: Tier) -> i32 {
+    let mut run = Run::new("C15", tier, "exploration");
+    let gr = grammar_all(tier.pick(2, 3), 2);
+    let progs = program_list(&gr);
+    let p = tier.pick(2, 2);
+    run.rule = format!(
+        "ALL function bodies of the statement grammar with <= {} nodes / nesting <= 2 ({} programs covering every instruction kind incl. else, inner end and the final end) x ALL plans of <= {} injections over (instruction, mode) with mode in {{before, after, alternate, empty alternate}} (two injections on the same site and mode included; thorough adds all plans of 3 injections on the programs with <= 2 nodes) x 9 API paths (module iterator, function modifier, component iterator; each through mode()+inject, inject_at and *_at+add_instr_at; quick rotates the path over the plans, thorough runs every path on every plan). Oracle: the decoded instruction list of the function equals, instruction by instruction, before ++ (alternate | instruction) ++ after, with only before-code at the final end; the other function is unchanged. Non-trivial class = (multiset of (mode, instruction role), API path).",
+        gr.max_nodes,
+        progs.len(),
+        p
+    );
+    let mut cases = vec![];
+    for (pi, prog) in progs.iter().enumerate() {
+        let em = emit(prog);
+        let n_ops = em.roles[0].len();
+        for (k, plan) in c15_plans(n_ops, p).into_iter().enumerate() {
+            if tier == Tier::Thorough {
+                for api in ALL_APIS {
+                    cases.push(Case { program: prog.clone(), plan: plan.clone(), api });
+                }
+            } else {
+                cases.push(Case { program: prog.clone(), plan, api: ALL_APIS[(pi + k) % ALL_APIS.len()] });
+            }
+        }
+    }
+    run_cases_static(&mut run, "before/after/alternate plans", cases, false);
+    if tier == Tier::Thorough {
+        let small = program_list(&grammar_all(2, 2));
+        let mut cases = vec![];
+        for (pi, prog) in small.iter().enumerate() {
+            let n_ops = emit(prog).roles[0].len();
+            for (k, plan) in c15_plans(n_ops, 3).into_iter().filter(|pl| pl.len() == 3).enumerate() {
+                cases.push(Case { program: prog.clone(), plan, api: ALL_APIS[(pi + k) % ALL_APIS.len()] });
+            }
+        }
+        run_cases_static(&mut run, "three injections, small programs", cases, false);
+    }
+    run.assumptions.push("alternate and empty-alternate are never combined on one site (the property does not say which wins)".into());
+    run.finish()
+}
+
+// ---------------------------------------------------------------------------------------------
+// C21
+// ---------------------------------------------------------------------------------------------
+fn c21_cases(tier: Tier) -> Vec<Case> {
+    use Leaf::*;
+    let gr = Grammar { max_nodes: tier.pick(3, 4), max_depth: 3, leaves: vec![Mark, Nop, BrIf], blocks: true, loops: true, ifs: true, else_arms: true, conds: vec![Cond::A], results: 0 };
+    let progs = program_list(&gr);
+    let mut cases = vec![];
+    for (pi, prog) in progs.iter().enumerate() {
+        let em = emit(prog);
+        let roles = &em.roles[0];
+        let openers: Vec<usize> = roles.iter().enumerate().filter(|(_, r)| matches!(r, Role::Block | Role::Loop | Role::If | Role::Else)).map(|(i, _)| i).collect();
+        if openers.is_empty() {
+            continue;
+        }
+        let m = match load(&em.bytes) {
+            Ok(m) => m,
+            Err(_) => continue,
+        };
+        let f = &m.funcs[0];
+        let mk = |k: usize, at: usize, empty: bool| Inj { at, mode: if empty { SMode::EmptyBlockAlt } else { SMode::BlockAlt }, c: 0x7200 + k as i32, drop_first: matches!(roles[at], Role::If) };
+        let region = |at: usize| -> (usize, usize) {
+            match roles[at] {
+                Role::Else => (at, f.end_of[at]),
+                // a replaced `if` also concerns its condition operand, which stays
+                _ => (at, f.end_of[at] + 1),
+            }
+        };
+        let mut plans: Vec<Vec<Inj>> = vec![];
+        for (i, a) in openers.iter().enumerate() {
+            for ea in [false, true] {
+                plans.push(vec![mk(0, *a, ea)]);
+                for b in openers.iter().skip(i + 1) {
+                    for eb in [false, true] {
+                        plans.push(vec![mk(0, *a, ea), mk(1, *b, eb)]);
+                    }
+                }
+            }
+        }
+        // plus one before/after probe outside the replaced regions
+        let mut with_probe = vec![];
+        for pl in plans.iter() {
+            let regions: Vec<(usize, usize)> = pl.iter().map(|i| region(i.at)).collect();
+            for at in 0..roles.len() {
+                // the if's condition operand and the opener itself are left alone
+                if regions.iter().any(|(s, e)| at >= *s && at < *e) || matches!(roles[at], Role::Aux) {
+                    continue;
+                }
+                for mode in [SMode::Before, SMode::After] {
+                    if mode == SMode::After && at == roles.len() - 1 {
+                        continue;
+                    }
+                    let mut p2 = pl.clone();
+                    p2.push(Inj { at, mode, c: 0x7300, drop_first: false });
+                    with_probe.push(p2);
+                }
+            }
+        }
+        for (k, plan) in plans.into_iter().chain(with_probe.into_iter()).enumerate() {
+            let api = [Api::IterMode, Api::ModAt, Api::CompMode, Api::IterAddInstrAt, Api::IterInjectAt][(pi + k) % 5];
+            cases.push(Case { program: prog.clone(), plan, api });
+        }
+    }
+    cases
+}
+
+pub fn check_c21(tier: Tier) -> i32 {
+    let mut run = Run::new("C21", tier, "exploration");
+    let cases = c21_cases(tier);
+    run.rule = format!(
+        "ALL function bodies with <= {} nodes / nesting <= 3 over block, loop, if, if-else, mark, nop, br_if x ALL plans of 1 or 2 block-alternates (non-empty `[drop;] i32.const c; drop` / empty) on block, loop, if, else openers - nested and sequential - plus every placement of one before/after probe outside the replaced regions, rotated over 5 API paths. Oracle: an independent matcher deletes [opener ..= matching end] (else: [else .. end)) and inserts the replacement at the opener's place (outermost replacement wins for nested ones); the decoded instruction list must equal that, and the output must validate (a replaced `if` consumes its condition with `drop`).",
+        tier.pick(3, 4)
+    );
+    run_cases_static(&mut run, "block alternates", cases, true);
+    run.assumptions.push("no before/after probe is placed on the opener of a replaced construct or inside a replaced region (the property does not say what happens to them)".into());
+    run.finish()
+}
+
+// ---------------------------------------------------------------------------------------------
+// C22
+// ---------------------------------------------------------------------------------------------
+#[derive(Clone, Debug, Serialize, Deserialize)]
+pub struct C22Case {
+    pub program: Program,
+    pub inj: Inj,
+    pub api: Api,
+}
+
+fn judge_c22(c: &C22Case) -> Result<(Vec<Mismatch>, String, u64), String> {
+    let em = emit(&c.program);
+    let role = role_at(&em.roles[0], c.inj.at);
+    let mut where_ = if matches!(c.inj.mode, SMode::FuncEntry | SMode::FuncExit) { "function".to_string() } else { role.to_string() };
+    // for branches: the kinds of label they target
+    if let Ok(m) = load(&em.bytes) {
+        let f = &m.funcs[0];
+        let mut stack: Vec<usize> = vec![];
+        for (i, op) in f.ops.iter().enumerate().take(c.inj.at) {
+            match op {
+                Operator::Block { .. } | Operator::Loop { .. } | Operator::If { .. } => stack.push(i),
+                Operator::End => {
+                    stack.pop();
+                }
+                _ => {}
+            }
+        }
+        let kind = |d: u32| -> &'static str {
+            let d = d as usize;
+            if d >= stack.len() {
+                "fn-label"
+            } else {
+                match f.ops[stack[stack.len() - 1 - d]] {
+                    Operator::Loop { .. } => "loop",
+                    Operator::If { .. } => "if",
+                    _ => "block",
+                }
+            }
+        };
+        let mut kinds: Vec<&'static str> = match f.ops.get(c.inj.at) {
+            Some(Operator::Br { relative_depth }) | Some(Operator::BrIf { relative_depth }) if !matches!(em.roles[0].get(c.inj.at), Some(Role::Aux)) => vec![kind(*relative_depth)],
+            Some(Operator::BrTable { targets }) => {
+                let mut v: Vec<&'static str> = targets.targets().map(|t| kind(t.unwrap_or(0))).collect();
+                v.push(kind(targets.default()));
+                v
+            }
+            _ => vec![],
+        };
+        kinds.sort();
+        kinds.dedup();
+        if !kinds.is_empty() && !matches!(c.inj.mode, SMode::FuncEntry | SMode::FuncExit) {
+            where_.push_str(&format!("->{}", kinds.join("+")));
+        }
+    }
+    let class = format!("{}|{}|{}", c.inj.mode.name(), c.api.name(), where_);
+    let _ = take_logs();
+    let r = apply_and_encode(&em.bytes, std::slice::from_ref(&c.inj), c.api, 1);
+    let logs = take_logs();
+    let bug_logged = logs.iter().any(|l| l.contains("BUG:"));
+    match r {
+        // rejected at the call, or encoding failed loudly: both are allowed
+        Err((_applied, p)) => {
+            if p.msg.starts_with("harness:") {
+                return Err(p.msg);
+            }
+            Ok((vec![], class, hash_of(&("rejected", p.site()))))
+        }
+        Ok(outs) => {
+            let enc = &outs[0];
+            let got = ops_of(enc, 0)?;
+            let orig = ops_of(&em.bytes, 0)?;
+            let needle = format!("I32Const {{ value: {} }}", c.inj.c);
+            let reflected = if c.inj.mode == SMode::EmptyBlockAlt { got.len() < orig.len() } else { got.iter().any(|o| *o == needle) };
+            let mut ms = vec![];
+            if !reflected {
+                ms.push(Mismatch::new(
+                    format!("silently-lost {} on {} via {}", c.inj.mode.name(), where_, c.api.name()),
+                    format!("the injection was accepted and encoding succeeded, but the encoded function does not contain it{}", if bug_logged { " (the library logged a 'BUG: ... should be resolved already' error)" } else { "" }),
+                ));
+            }
+            Ok((ms, class, hash_of(enc)))
+        }
+    }
+}
+
+pub fn check_c22(tier: Tier) -> i32 {
+    let mut run = Run::new("C22", tier, "exploration");
+    // covering programs: every instruction kind the special modes distinguish
+    let covering: Vec<Vec<Stmt>> = vec![
+        vec![Stmt::Block(vec![Stmt::Mark, Stmt::Br(0)]), Stmt::Loop(vec![Stmt::BrIf(Cond::Ctr, 0)]), Stmt::If(Cond::A, vec![Stmt::Mark], Some(vec![Stmt::Nop])), Stmt::Mark],
+        vec![Stmt::Block(vec![Stmt::BrIf(Cond::A, 1), Stmt::BrTable(Cond::A, vec![0], 1)]), Stmt::If(Cond::B, vec![Stmt::Br(1)], None)],
+        vec![Stmt::Block(vec![Stmt::Block(vec![Stmt::BrTable(Cond::A, vec![0, 1], 2)])]), Stmt::Ret],
+    ];
+    let modes = [SMode::SemanticAfter, SMode::BlockEntry, SMode::BlockExit, SMode::BlockAlt, SMode::EmptyBlockAlt, SMode::FuncEntry, SMode::FuncExit];
+    let mut cases = vec![];
+    for body in covering.iter() {
+        let prog = Program { results: 0, main: body.clone(), callee: vec![Stmt::Mark] };
+        let em = emit(&prog);
+        let roles = &em.roles[0];
+        for mode in modes {
+            for api in ALL_APIS {
+                if matches!(mode, SMode::FuncEntry | SMode::FuncExit) {
+                    cases.push(C22Case { program: prog.clone(), inj: Inj { at: 0, mode, c: 0x7400, drop_first: false }, api });
+                    continue;
+                }
+                // one site per distinct instruction role (+ every site in the thorough tier)
+                let mut seen: std::collections::BTreeSet<String> = std::collections::BTreeSet::new();
+                for (at, r) in roles.iter().enumerate() {
+                    // (every instruction in both tiers: the space is tiny)
+                    let _ = (&mut seen, tier);
+                    cases.push(C22Case { program: prog.clone(), inj: Inj { at, mode, c: 0x7400, drop_first: matches!(r, Role::If) && mode == SMode::BlockAlt }, api });
+                }
+            }
+        }
+    }
+    run.rule = format!(
+        "complete product: {{semantic-after, block-entry, block-exit, block-alt, empty-block-alt, func-entry, func-exit}} x 9 API paths (module iterator / function modifier / component iterator, each through mode()+inject, inject_at and *_at+add_instr_at) x every instruction role (thorough: every instruction) of 3 covering programs (block, loop, if, else, br, br_if, br_table to block / function label, plain instructions, inner ends, final end). Oracle: the call panics (= rejected at the call) or encoding fails loudly or the probe's unique constant occurs in the encoded function (empty-block-alt: the construct is gone); accepted-then-absent is the violation. {} cases.",
+        cases.len()
+    );
+    let results: Vec<Result<(Vec<Mismatch>, String, u64), String>> = cases.iter().map(|c| match catch(|| judge_c22(c)) { Ok(r) => r, Err(p) => Err(format!("harness panic {}", p.msg)) }).collect();
+    let mut rejected = 0u64;
+    for (c, r) in cases.iter().zip(results) {
+        match r {
+            Err(e) => run.machinery_error(e),
+            Ok((ms, class, h)) => {
+                run.add_observed(h);
+                run.add_class("special modes", &class);
+                if ms.is_empty() && h == hash_of(&("rejected", "")) {
+                    rejected += 1;
+                }
+                for m in ms {
+                    run.add_mismatch("special modes", json!(c), m.sig, m.detail, 1);
+                }
+            }
+        }
+    }
+    let _ = rejected;
+    run.add_evaluations("special modes x api paths x instruction kinds", cases.len() as u64);
+    if let Some(c) = cases.get(cases.len() / 3) {
+        run.add_sample(json!(c));
+    }
+    run.finish()
+}
+
+// ---------------------------------------------------------------------------------------------
+// C05, plan family
+// ---------------------------------------------------------------------------------------------
+/// every instrumentation plan of a small family encoded three times in a row
+pub fn reencode_family(run: &mut Run, tier: Tier) {
+    let gr = grammar_all(tier.pick(2, 3), 2);
+    let progs = program_list(&gr);
+    let modes = [SMode::Before, SMode::After, SMode::Alternate, SMode::EmptyAlternate, SMode::SemanticAfter, SMode::BlockEntry, SMode::BlockExit, SMode::BlockAlt, SMode::EmptyBlockAlt, SMode::FuncEntry, SMode::FuncExit];
+    let mut cases: Vec<Case> = vec![];
+    for (pi, prog) in progs.iter().enumerate() {
+        let em = emit(prog);
+        let roles = &em.roles[0];
+        for mode in modes {
+            for (at, r) in roles.iter().enumerate() {
+                let ok = match mode {
+                    SMode::Before | SMode::Alternate | SMode::EmptyAlternate => true,
+                    SMode::After => at + 1 < roles.len(),
+                    SMode::BlockEntry | SMode::BlockExit | SMode::BlockAlt | SMode::EmptyBlockAlt => matches!(r, Role::Block | Role::Loop | Role::If | Role::Else),
+                    SMode::SemanticAfter => matches!(r, Role::Block | Role::If | Role::Else | Role::Br | Role::BrIf | Role::BrTable),
+                    SMode::FuncEntry | SMode::FuncExit => at == 0,
+                };
+                if ok {
+                    cases.push(Case { program: prog.clone(), plan: vec![Inj { at, mode, c: 0x7500, drop_first: matches!(r, Role::If) && mode == SMode::BlockAlt }], api: [Api::IterMode, Api::ModAt][(pi + at) % 2] });
+                }
+            }
+        }
+    }
+    let results: Vec<Option<(String, String)>> = cases
+        .par_iter()
+        .map(|c| {
+            let em = emit(&c.program);
+            match apply_and_encode(&em.bytes, &c.plan, c.api, 3) {
+                Err((applied, p)) => {
+                    if applied && !p.msg.starts_with("harness:") {
+                        // the first encoding may fail loudly (not C05's business); a later one failing is
+                        None
+                    } else {
+                        None
+                    }
+                }
+                Ok(outs) => {
+                    if outs[0] != outs[1] || outs[1] != outs[2] {
+                        let role = role_at(&em.roles[0], c.plan[0].at);
+                        Some((format!("reencode differs plan {}@{}", c.plan[0].mode.name(), role), format!("encodings have {} / {} / {} bytes", outs[0].len(), outs[1].len(), outs[2].len())))
+                    } else {
+                        None
+                    }
+                }
+            }
+        })
+        .collect();
+    for (c, r) in cases.iter().zip(results) {
+        run.add_class("plans", &format!("{}", c.plan[0].mode.name()));
+        if let Some((sig, detail)) = r {
+            run.add_mismatch("instrumentation plans x 3 encodings", json!(c), sig, detail, 1);
+        }
+    }
+    run.add_evaluations("instrumentation plans x 3 encodings", cases.len() as u64);
+}
+
+pub fn replay(id: &str, family: &str, case: &serde_json::Value) -> Vec<Mismatch> {
+    if id == "C22" {
+        let c: C22Case = match serde_json::from_value(case.clone()) {
+            Ok(c) => c,
+            Err(e) => return vec![Mismatch::new("replay-case-unreadable", e.to_string())],
+        };
+        return match judge_c22(&c) {
+            Ok((ms, _, _)) => ms,
+            Err(e) => vec![Mismatch::new("machinery", e)],
+        };
+    }
+    let c: Case = match serde_json::from_value(case.clone()) {
+        Ok(c) => c,
+        Err(e) => return vec![Mismatch::new("replay-case-unreadable", e.to_string())],
+    };
+    if id == "C05" {
+        let em = emit(&c.program);
+        return match apply_and_encode(&em.bytes, &c.plan, c.api, 3) {
+            Ok(outs) if outs[0] != outs[1] || outs[1] != outs[2] => vec![Mismatch::new("reencode differs", "")],
+            _ => vec![],
+        };
+    }
+    let _ = family;
+    match judge(&c, id == "C21") {
+        Ok((ms, _)) => ms,
+        Err(e) => vec![Mismatch::new("machinery", e)],
+    }
+}
